@@ -25,9 +25,18 @@ RULE = ("random data D (Atom | List | Map | Seq | Absent; nesting depth <= 5, co
         "nullable choice, a single-child chain, a two-level choice or a kept symbol, or (kind 'direct') DIRECTLY a template "
         "symbol ROW = ProdSequence / bracket-less list with or without delimiter / bracket-less map / bracketed (optional) "
         "list or map, used as item of the top list, value of the top map and item / value of the inner LIST / MAP at every "
-        "depth, with empty rows at every position; D is rendered to text with "
+        "depth, with empty rows at every position; in a share of the grammars the start symbol reaches the top symbol through "
+        "one or two single-production symbols (E -> E1 -> E2 -> TOP), a single-production symbol RW -> ROW stands between a "
+        "container and its rows, and no ';' follows a bracket-less top container (the end of the text must then be found to "
+        "follow the top symbol, its tail symbol and a nullable last item through a chain of FOLLOW dependencies); the "
+        "`productions` dict handed to LLParser declares the symbols top-down, bottom-up (start symbol last, a template before "
+        "its users), bottom-up rotated, or in a random order (55% of the grammars are not top-down; the denotation and the "
+        "model do not depend on the order); D is rendered to text with "
         "random white space, line breaks, // and /* */ comments between the tokens (final delimiters where allowed, "
-        "a forbidden final delimiter in the reject stream) and parsed with and without the default cleanup; plus "
+        "a forbidden final delimiter in the reject stream); the characters at which str.splitlines() breaks a line but which do "
+        "not end a line of the tokenizer (FF, VT, FS/GS/RS, NEL, U+2028, U+2029, a lone CR) occur INSIDE the // comments "
+        "(followed by text that would be items, delimiters or brackets if the comment ended there), inside /* */ comments, "
+        "inside quoted items and keys, and between tokens; every text is parsed with and without the default cleanup; plus "
         "every combination of constructor arguments of the three templates (productions only); plus histories (kind "
         "'hist'): ONE parser object of a random grammar of the family on which 5-12 calls are made one after another - "
         "the main text parsed at the beginning, in the middle and at the end (with parse(), parse(do_cleanup=False) + "
@@ -348,7 +357,7 @@ def gen_grammar(rng, force=None):
                               "close": ">" if br else None, "afd": afd, "opt": opt}])
         topsym = "TOP"
         if not br:
-            semi = True if not dl else semi
+            semi = (rng.random() < NOSEMI_X) if not dl else semi
         if opt:
             head = ["="] if rng.random() < 0.5 else []     # a keyword in front, so that an absent list is followed by something
     elif top in ("map", "bmap"):
@@ -368,12 +377,23 @@ def gen_grammar(rng, force=None):
         prods.append(["TOP", {"t": "seq", "syms": el}])
         topsym = "TOP"
         semi = True if rng.random() < 0.8 else semi
-    e_alt = head + [topsym] + ([";"] if semi else [])
-    prods.insert(0, ["E", {"t": "plain", "alts": [e_alt]}])
+    start_chain(rng, prods, head + [topsym] + ([";"] if semi else []))
     g = {"start": "E", "keep": keep, "smart": rng.random() < 0.8, "prods": prods, "kind": kind, "top": top}
     return prune(g)
 
 
+NOSEMI_X = 0.5
+
+
+def start_chain(rng, prods, e_alt):
+    """E -> e_alt, in a share of the grammars through one or two single-production symbols E -> E1 -> E2 -> e_alt: what may
+    follow the top symbol (the end of the text when no ';' is demanded) then reaches the top symbol, its tail symbol and a
+    nullable item symbol only through a chain of FOLLOW dependencies, and that E derives the empty text only through a chain
+    of nullable symbols"""
+    r = rng.random()
+    chain = ["E"] + ([] if r < 0.6 else ["E1"] if r < 0.85 else ["E1", "E2"])
+    for i, n in enumerate(chain):
+        prods.insert(i, [n, {"t": "plain", "alts": [[chain[i + 1]] if i + 1 < len(chain) else e_alt]}])
 ROW_KINDS = ["seq", "blist", "blist0", "bmap", "list", "optlist", "map", "optmap"]
 ROW_NULLABLE = {"seq", "blist", "blist0", "bmap", "optlist", "optmap"}
 DIRECT_TOPS = ["list", "blist", "optlist", "map", "bmap", "value"]
@@ -397,12 +417,18 @@ def gen_grammar_direct(rng, force):
     if top == "value" and not map_row:
         inner_row = True
     row_nullable = row in ROW_NULLABLE
+    # in a share of the grammars a single-production symbol RW -> ROW stands between a container and its rows (the cleanup
+    # squashes it): what may follow a row then reaches ROW / ROW__TAIL only through a chain of FOLLOW dependencies
+    rw = "RW" if rng.random() < 0.3 else "ROW"
+
+    def rowsym():
+        return rw if rng.random() < 0.8 else "ROW"
     prods = []
     alts = [[a] for a in atoms] + [["LIST"]] + ([["MAP"]] if use_map else [])
     rng.shuffle(alts)
     prods.append(["VALUE", {"t": "plain", "alts": alts}])
     if inner_row:
-        prods.append(["LIST", {"t": "list", "open": "[", "item": "ROW", "delim": ";", "close": "]",
+        prods.append(["LIST", {"t": "list", "open": "[", "item": rowsym(), "delim": ";", "close": "]",
                                "afd": rng.choice([None, True, False]), "opt": None}])
     else:
         prods.append(["LIST", {"t": "list", "open": "[", "item": "VALUE", "delim": ",", "close": "]",
@@ -410,7 +436,7 @@ def gen_grammar_direct(rng, force):
     keysym = rng.choice(["WORD", "STR", "KEY"])
     if use_map:
         prods.append(["MAP", {"t": "map", "open": "{", "key": keysym, "assign": rng.choice([":", "="]),
-                              "val": "ROW" if map_row else "VALUE", "delim": ";" if map_row else ",", "close": "}",
+                              "val": rowsym() if map_row else "VALUE", "delim": ";" if map_row else ",", "close": "}",
                               "opt": None, "afd": rng.choice([None, None, True, False])}])
     r_item = "VALUE" if rng.random() < 0.7 else atoms[0]
     if row == "seq":
@@ -435,6 +461,8 @@ def gen_grammar_direct(rng, force):
                               "delim": ",", "close": ")" if br else None,
                               "opt": True if row == "optmap" else (rng.choice([None, False]) if br else None),
                               "afd": rng.choice([None, True, False])}])
+    if rw == "RW":
+        prods.insert(rng.randint(0, len(prods)), ["RW", {"t": "plain", "alts": [["ROW"]]}])
     if keysym == "KEY":
         prods.append(["KEY", {"t": "plain", "alts": [["WORD"], ["STR"]]}])
     semi = rng.random() < 0.7
@@ -446,25 +474,25 @@ def gen_grammar_direct(rng, force):
         if row_nullable:
             combos = [c for c in combos if c[1]]
         br, dl, afd, opt = force.get("combo") or rng.choice(combos)
-        prods.append(["TOP", {"t": "list", "open": "<" if br else None, "item": "ROW", "delim": "|" if dl else None,
+        prods.append(["TOP", {"t": "list", "open": "<" if br else None, "item": rw, "delim": "|" if dl else None,
                               "close": ">" if br else None, "afd": afd, "opt": opt}])
         topsym = "TOP"
         if not br:
-            semi = True
+            semi = rng.random() < NOSEMI_X
         if opt:
             head = ["="] if rng.random() < 0.5 else []
     else:
         br = top == "map"
         opt = rng.choice([None, None, True, False]) if br else None
         prods.append(["TOP", {"t": "map", "open": "<" if br else None, "key": rng.choice(["WORD", "STR", "NUM"]),
-                              "assign": rng.choice([":", "="]), "val": "ROW", "delim": "|", "close": ">" if br else None,
+                              "assign": rng.choice([":", "="]), "val": rw, "delim": "|", "close": ">" if br else None,
                               "opt": opt, "afd": rng.choice([None, True, False])}])
         topsym = "TOP"
         if not br:
-            semi = True
+            semi = rng.random() < NOSEMI_X
         if opt:
             head = ["|"] if rng.random() < 0.5 else []
-    prods.insert(0, ["E", {"t": "plain", "alts": [head + [topsym] + ([";"] if semi else [])]}])
+    start_chain(rng, prods, head + [topsym] + ([";"] if semi else []))
     g = {"start": "E", "keep": [], "smart": rng.random() < 0.8, "prods": prods, "kind": "direct", "top": top, "row": row}
     return prune(g)
 
@@ -472,8 +500,18 @@ def gen_grammar_direct(rng, force):
 def cont_nullable(g, s):
     """s is DIRECTLY a template symbol that derives the empty token string as an EMPTY CONTAINER (a bracket-less list or
     map, a sequence) - unlike a nullable choice symbol or an absent optional container, which give None"""
-    sp = g["_p"].get(s)
+    sp = g["_p"].get(resolve(g, s))
     return bool(sp) and (sp["t"] == "seq" or (sp["t"] in ("list", "map") and sp["open"] is None))
+
+
+def resolve(g, s):
+    """the symbol a chain of single-production, single-symbol plain symbols (RW -> ROW) leads to"""
+    for _ in range(8):
+        sp = g["_p"].get(s)
+        if not (sp and sp["t"] == "plain" and len(sp["alts"]) == 1 and len(sp["alts"][0]) == 1):
+            break
+        s = sp["alts"][0][0]
+    return s
 
 
 def prune(g):
@@ -549,7 +587,9 @@ def need_depth(g):
 
 # ------------------------------------------------------------------ data + rendering
 WORDS = ["a", "b", "c", "k", "x", "y", "ab", "key", "val", "foo", "bar_1", "_z", "n0", "w"]
-STRS = ["", "a", "x y", "k", "[1,2]", "a,b", "//no", "key", "z:z", "{"]
+STRS = ["", "a", "x y", "k", "[1,2]", "a,b", "//no", "key", "z:z", "{",
+        # quoted items that contain a character at which str.splitlines() would break the line (see LINE_BREAKISH)
+        "p\x0cq", "l\u2028s", "f\x1cs", "n\x85", "\x0b", "c\rr, x", "u\u2029", "\x1d \x1e", "\x0c"]
 ABSENT = None
 
 
@@ -690,7 +730,7 @@ class Deriver:
         return None
 
     def empty_of(self, s):
-        t = self.g["_p"][s]["t"]
+        t = self.g["_p"][resolve(self.g, s)]["t"]
         return {"s": []} if t == "seq" else {"l": []} if t == "list" else {"m": []}
 
     def d_map(self, sp, depth, no_absent):
@@ -743,6 +783,29 @@ class Deriver:
 
 COMMENTS = ["// c", "// [a, b] ;", "//", "// \"q\" {k: v}", "//x,"]
 MLCS = ["/* c */", "/**/", "/* [ , ] ; */", "/* a\n b */", "/* {\n\n } */"]
+# characters at which str.splitlines() breaks a line but text.split("\n") does not (the pool of harness/props/c01.py): the
+# tokenizer reads a text line by line, a line ends at "\n" only, so these characters are ordinary characters of a to-end-of-line
+# comment, of a /* */ comment and of a quoted item; between tokens they are white space
+LINE_BREAKISH = ["\x0b", "\x0c", "\x1c", "\x1d", "\x1e", "\x85", "\u2028", "\u2029", "\r"]
+TOKENISH = [" a, [b] ;", " k: v |", ",", " x", " \"q\"", " ] > )", "", " | a | b", "; ; {", " = 7"]
+
+
+def comment(rng):
+    """a to-end-of-line comment; in a share of the cases one of the LINE_BREAKISH characters occurs INSIDE it, followed by
+    text that would be tokens (items, delimiters, brackets) if the comment ended there"""
+    c = rng.choice(COMMENTS)
+    if rng.random() < 0.45:
+        k = rng.randint(2, len(c))
+        c = c[:k] + rng.choice(["", " "]) + rng.choice(LINE_BREAKISH) + rng.choice(TOKENISH) + c[k:]
+    return c
+
+
+def ml_comment(rng):
+    c = rng.choice(MLCS)
+    if rng.random() < 0.3:
+        k = rng.randint(2, len(c) - 2)
+        c = c[:k] + rng.choice(LINE_BREAKISH) + rng.choice(TOKENISH + ["\n"]) + c[k:]
+    return c
 
 
 def render(rng, toks, messy):
@@ -764,11 +827,13 @@ def render(rng, toks, messy):
             elif r < 0.45:
                 sep = "  \t "
             elif r < 0.55:
-                sep = " " + rng.choice(COMMENTS) + "\n" + rng.choice(["", "  ", "\n"])
+                sep = " " + comment(rng) + "\n" + rng.choice(["", "  ", "\n"])
             elif r < 0.65:
-                sep = rng.choice(["", " "]) + rng.choice(MLCS) + rng.choice(["", " ", "\n"])
+                sep = rng.choice(["", " "]) + ml_comment(rng) + rng.choice(["", " ", "\n"])
             elif r < 0.7:
                 sep = "\n\n   "
+            elif r < 0.74:
+                sep = rng.choice([" ", "", "\n"]) + rng.choice(LINE_BREAKISH) + rng.choice(["", " ", "\n"])
             else:
                 sep = ""
             if need and sep == "":
@@ -778,7 +843,7 @@ def render(rng, toks, messy):
         # '/' never starts a token of the lexicon, so a separator cannot glue to one; a STR value may contain anything but '"'
         out.append(sep + lex)
         prev = name
-    tail = rng.choice(["", " ", "\n", " // end", "\n/* end */\n"]) if messy else ""
+    tail = rng.choice(["", " ", "\n", " // end", "\n/* end */\n", " " + comment(rng), "\n" + ml_comment(rng)]) if messy else ""
     return "".join(out) + tail
 
 
@@ -850,7 +915,7 @@ def gen_cases(rng, tier):
                 forced.append({"kind": "direct", "row": row, "top": top})
     todo = forced + [None] * n_gram
     for f in todo:
-        g = gen_grammar(rng, f)
+        g = declare_order(rng, gen_grammar(rng, f))
         for i in range(per):
             c = make_case(rng, g, reject=False)
             if c:
@@ -1057,7 +1122,7 @@ def hist_cases(rng, tier):
     kinds = ["choice", "choice", "nullable", "chain", "choice2", "keep", "chainnode", "single", "direct", "direct"]
     n = 700 if big else 120
     for i in range(n):
-        g = gen_grammar(rng, {"kind": kinds[i % len(kinds)]})
+        g = declare_order(rng, gen_grammar(rng, {"kind": kinds[i % len(kinds)]}))
         r = rng.random()
         second = None
         if r < 0.12:
@@ -1076,7 +1141,7 @@ def hist_cases(rng, tier):
         if kd == "nullable":
             # the order of the alternatives of a list with a nullable item matters most when no final delimiter is allowed
             force.update({"top": "list", "combo": (True, True, False, None)})
-        h = make_history(rng, gen_grammar(rng, force), sweep=True)
+        h = make_history(rng, declare_order(rng, gen_grammar(rng, force)), sweep=True)
         if h:
             out.append(h)
     return out
@@ -1092,10 +1157,42 @@ def kind(case):
 
 
 # ------------------------------------------------------------------ implementation
+def declared(g):
+    """the productions of g in the order in which they are DECLARED in the `productions` dict handed to LLParser:
+    g["order"] (a permutation of the symbol names) when present, else the top-down order of g["prods"].  What the
+    grammar denotes (and the model's result) does not depend on it"""
+    order = g.get("order")
+    if not order:
+        return list(g["prods"])
+    by = {n: sp for n, sp in g["prods"]}
+    names = [n for n in order if n in by] + [n for n, _ in g["prods"] if n not in order]
+    return [[n, by[n]] for n in names]
+
+
+def declare_order(rng, g, p=0.55):
+    """in a share of the grammars the symbols are declared bottom-up (start symbol last, a template before its users)
+    or in a random order"""
+    names = [n for n, _ in g["prods"]]
+    if len(names) < 2 or rng.random() >= p:
+        return g
+    r = rng.random()
+    if r < 0.6:
+        names.reverse()
+    elif r < 0.75:
+        # bottom-up, but the start symbol second to last / rotated: the last declared symbol is not the start symbol
+        names.reverse()
+        k = rng.randint(1, len(names) - 1)
+        names = names[k:] + names[:k]
+    else:
+        rng.shuffle(names)
+    g["order"] = names
+    return g
+
+
 def build_productions(g, llparser, deseq):
     prods = {}
     tmpl = {}
-    for name, sp in g["prods"]:
+    for name, sp in declared(g):
         t = sp["t"]
         if t == "plain":
             prods[name] = [tuple(a) if a else None for a in sp["alts"]]
@@ -1416,7 +1513,7 @@ def _impl_hist(case, llparser):
 
 
 # ------------------------------------------------------------------ model side
-VOCAB = (["E", "TOP", "VALUE", "V1", "V2", "ATOM", "ATOM2", "CONT", "LIST", "MAP", "SEQ", "SEQB", "KEY", "SATOM", "WORD", "NUM", "STR", "ROW"]
+VOCAB = (["E", "E1", "E2", "TOP", "VALUE", "V1", "V2", "ATOM", "ATOM2", "CONT", "LIST", "MAP", "SEQ", "SEQB", "KEY", "SATOM", "WORD", "NUM", "STR", "ROW", "RW"]
          + sorted(PUNCT))
 _GEN = []
 for _n in ("TOP", "LIST", "MAP", "SEQ", "ROW"):
@@ -1911,7 +2008,11 @@ LEVEL_TEXT = ("Partial. Proved in Coq for ALL derivation trees (any length, any 
               "(the cleanup before commit c9bcabb). NOT proved, only tested by correspondence/oracle: template_unambiguous_statement "
               "(that the parse of rendered data is THE derivation denoting it), item symbols that are chains deeper than one level, "
               "two-level choices or kept symbols, ordinary multi-child elements between containers (e.g. '(' SEQ ')'), keep_symbols, "
-              "AnyTokenExcept items, and everything before the raw tree (tokenizer, skipped text, parse loop: C01-C04).")
+              "AnyTokenExcept items, and everything before the raw tree (tokenizer, skipped text, grammar analysis = nullable / FIRST / FOLLOW "
+              "sets and the parse table, parse loop: C01-C04): the model starts from the implementation's raw tree, so that a text rendered "
+              "from data is accepted whatever the declaration order of the productions dict, and that comments / quoted items "
+              "containing form feeds, U+2028 ... are one token, is tested by the oracle only (`parse-error`, `list-length`, "
+              "`value-mismatch` against the generating data).")
 LEVEL_NOTE = ("Trusted: Coq kernel + vm_compute; fidelity of the hand model (checked on ~1000 (quick) / ~11000 (thorough) generated "
               "texts per run plus 139 constructor-argument combinations plus ~130 (quick) / ~760 (thorough) call histories of 5-25 steps, "
               "not proved); python dict(); that the tree given to the cleanup "
